@@ -92,6 +92,20 @@ pub fn packets(tier: &str, seed: u64, big: bool) -> Vec<(Packet<'static>, String
             }
             v.push((p, "many-names".to_string()));
         }
+        // NSEC values whose (distinct) windows are held out of wire order, as construction from parts allows: the plain
+        // writer sorts them; whatever the compressing writer does must parse to the same packet
+        for k in 0..6u8 {
+            let mut p = Packet::new_reply(900 + k as u16);
+            let maps = vec![
+                rdata::TypeBitMap { window_block: 3 + k, bitmap: vec![1u8, 2].into() },
+                rdata::TypeBitMap { window_block: 1, bitmap: vec![0x40u8].into() },
+                rdata::TypeBitMap { window_block: 2 + k % 2 * 5, bitmap: vec![0u8, 0, 8].into() },
+            ];
+            let owner = crate::gen::mk_name(&[b"host".to_vec(), b"example".to_vec()]);
+            p.answers.push(ResourceRecord::new(owner.clone(), CLASS::IN, 1, rdata::RData::A(rdata::A { address: 1 })));
+            p.answers.push(ResourceRecord::new(owner.clone(), CLASS::IN, 1, rdata::RData::NSEC(rdata::NSEC { next_name: owner.clone(), type_bit_maps: maps })));
+            v.push((p, "nsec-unordered".to_string()));
+        }
         // names that each extend the previous one by a leading label: the compressor writes the k-th as one label
         // and a pointer to the (k-1)-th, so that reading the last one back follows k-1 pointers (up to 126 are legal)
         for depth in [5usize, 17, 40, 126] {
@@ -193,6 +207,8 @@ pub fn c03(tier: &str, seed: u64) -> Vec<Case> {
         let (pout, plain) = build_out(&p, false);
         let (cout, comp) = build_out(&p, true);
         let mut c = Case::new(format!("build.comp {}", ptxt), cout.clone()).tag(&tag);
+        // values outside the model's well-formedness (unordered NSEC windows): the property's own oracle only
+        if tag == "nsec-unordered" { c.proj = Proj::None; c.op = String::new(); }
         match (&plain, &comp) {
             (Some(pb), Some(cb)) => {
                 let a = parse_out(pb);
@@ -205,7 +221,7 @@ pub fn c03(tier: &str, seed: u64) -> Vec<Case> {
                 }
                 if cb.len() > 16383 { c = c.tag("beyond-16383"); }
                 if cb.len() < pb.len() { c = c.tag("actually-compressed"); }
-                if tag != "big" && tag != "boundary-16383" { v.push(Case::new(format!("parse {}", text::hex(cb)), b).tag("parse")); }
+                if tag != "big" && tag != "boundary-16383" && tag != "nsec-unordered" { v.push(Case::new(format!("parse {}", text::hex(cb)), b).tag("parse")); }
             }
             _ => { c = c.fail("build-failed", format!("plain: {} compressed: {}", class_of(&pout), class_of(&cout))); }
         }
@@ -503,6 +519,18 @@ pub fn c11(tier: &str, seed: u64) -> Vec<Case> {
                     else { let back = parse_out(&cur.get_ref()[5..]); if back != format!("ok {}", ptxt) { c = c.fail("reserialise-differs", format!("re-emitted {} behind a 5-byte prefix, the message does not read back as the packet", if comp { "compressed" } else { "plain" })); } }
                 }
                 v.push(c);
+                // ... or into a buffer that still holds an older, longer message (a reused datagram buffer): what
+                // lies beyond the bytes written so far must not matter
+                let want = if comp { p.build_bytes_vec_compressed() } else { p.build_bytes_vec() };
+                if let (Ok(want), false) = (want, expands) {
+                    let mut cur2 = std::io::Cursor::new(vec![0x5Au8; want.len() + 40]);
+                    let pp = p.clone();
+                    let ok2 = std::panic::catch_unwind(std::panic::AssertUnwindSafe(|| if comp { pp.write_compressed_to(&mut cur2).is_ok() } else { pp.write_to(&mut cur2).is_ok() })).unwrap_or(false);
+                    let mut c2 = Case::oracle_only().tag("re-emitted-into-used-buffer");
+                    if !ok2 { c2 = c2.fail("reserialise-failed", format!("serialising a parsed packet ({}) into a buffer that holds older bytes fails", if comp { "compressed" } else { "plain" })); }
+                    else if cur2.get_ref()[..want.len()] != want[..] || cur2.position() as usize != want.len() { c2 = c2.fail("reserialise-differs", format!("re-emitted {} into a used buffer: other bytes than build_bytes_vec", if comp { "compressed" } else { "plain" })); }
+                    v.push(c2);
+                }
             }
         }
     }
